@@ -40,7 +40,7 @@ CLAIMED.update({
          "note": "BOUNDED, not proved: 246 (group, file) cases x six run methods. next_by_line's nested generator loop is not under contract. Assumes members share no mutable state.",
          "tech": BT},
  "C09": {"cat": "other", "text": "Proved: the run manifest's status / all_valid / all_completed / error_count written by ResultsRegistrar.register_complete are the conjunction / conjunction / sum over the members (unbounded loops, prefix_sum spec function). Bounded: every archived file of 48 real runs (4 groups x 2 files x six methods) is read back and compared with the in-memory results and its fingerprint.",
-         "note": "Proved too: ResultSerializer._save writes meta/errors/vars.json with exactly the given content into the member's directory, and ResultRegistrar.register_complete / metadata_update write a member manifest whose valid / completed / error_count / actual_data_file / identity are the csvpath's (ghost effect log). data.csv, unmatched.csv, printouts.txt, fingerprints are BOUNDED only; json/csv/hashlib external.",
+         "note": "Proved too: ResultSerializer._save writes meta/errors/vars.json with exactly the given content into the member's directory, ResultsManager.save serialises then registers each member exactly once (files before fingerprints), and ResultRegistrar.register_complete / metadata_update write a member manifest whose valid / completed / error_count / actual_data_file / identity are the csvpath's (ghost effect log). data.csv, unmatched.csv, printouts.txt, fingerprints are BOUNDED only; json/csv/hashlib external.",
          "tech": BT},
  "C10": {"cat": "other", "text": "Proved: get_run_dir returns a path for which os.path.exists is False under base/<named-paths name>/ (while loop + invariant, file system as uninterpreted predicate); clear_run_coordination forgets the run directory; the strftime format read from the source is strictly monotone in the timestamp and equals the format the :last/:first reader parses (VCs over directive fields). Bounded: run sequences with a scripted clock.",
          "note": "Assumes strftime/strptime directive semantics; bounded: all sequences of length <=2, all length-3 of one group, stride sample of the rest.",
